@@ -197,6 +197,29 @@ func c03ConfigCheck(req []byte, base *soloResult, cfg string) (clause, detail st
 	s := srv.NewServer(d)
 	input := req
 	skip := 0
+	if strings.Contains(cfg, "unauthenticated") {
+		// a password is required and the client does not present it: every request is
+		// still answered exactly once (with an error), nothing is executed
+		s.SetRequirePass("Secret1")
+		installPassword(s, "Secret1")
+		s.SetTracer(srv.NewTracer())
+		out := srv.RunConn(s, seq.NewConn(seq.Script{Input: concat(req, grammar.Encode([]string{"PING"}))}))
+		if cl, dt := crashClause(out); cl != "" {
+			return cl, dt
+		}
+		vals, derr := resp.DecodeAll(out.Reply)
+		if derr != nil {
+			return "reply-malformed", derr.Error()
+		}
+		// (QUIT may be refused like any other command, or honoured as Redis does)
+		if len(vals) != 2 && !(isQuit(req) && len(vals) == 1) {
+			return "reply-count", fmt.Sprintf("%d replies to 2 requests on a connection that has not authenticated: %s", len(vals), valuesString(vals))
+		}
+		if len(d.Calls) != 0 {
+			return "executed-before-auth", fmt.Sprintf("handler calls %v on a connection that has not authenticated", srv.CallKeys(d.Calls, false))
+		}
+		return "", ""
+	}
 	if strings.Contains(cfg, "requirepass") {
 		s.SetRequirePass("Secret1")
 		installPassword(s, "Secret1")
@@ -417,7 +440,7 @@ func c03Run(c *fw.Ctx) {
 		if base.Crash != "" {
 			continue // reported by the singles pass
 		}
-		for _, cfg := range []string{"requirepass", "tracer", "tls", "requirepass+tracer+tls"} {
+		for _, cfg := range []string{"requirepass", "tracer", "tls", "requirepass+tracer+tls", "unauthenticated+tracer"} {
 			c.Eval()
 			c.Nontrivial()
 			if clause, detail := c03ConfigCheck(it.Bytes, base, cfg); clause != "" {
@@ -536,7 +559,7 @@ func init() {
 	fw.Register(&fw.Prop{
 		ID:    "C03",
 		Level: "exploration",
-		Rule:  "request catalogue from the independent grammar: every registered command with its valid shapes (each option word at least once, list arities 1..3, lower-case name), one surplus-argument shape, every ill-formed shape of C10, unknown commands, handler errors, QUIT variants. Pipelines: every single request; all ordered pairs and triples over one representative per executor family + QUIT + unknown + argument error + handler error. Delivery: whole, EVERY 2-way split, 1-byte (singles, pairs; triples: whole, request-aligned, 1-byte; thorough: every 2-way split too, and all pipelines of four representatives whole, request-aligned and 1-byte). The reply/liveness invariant (#complete replies written == #complete requests delivered, in order, replies equal to the request's solo reply) is evaluated at every transport Read and at end of stream; a loop-iteration budget turns a spin into a verdict. Size ladder: the pipeline PING, ECHO <L bytes>, SET k <L bytes>, ECHO x for L = 2^k-1, 2^k, 2^k+1 (k=6..16, thorough 17) and 10^k-1..10^k+1 with frame-looking content: whole, every 2-way split within 8 bytes of each structural position (request boundaries, start and end of the large payload), strides 1/3/4096/32768. Configuration invariance: every catalogue request under {requirepass with AUTH first, tracer installed, connection over TLS, all three} must get the default configuration's reply and handler calls. Arity ladder: DEL/MGET/MSET/SADD/RPUSH/HMSET/ZADD with 255..4097 elements between PING and ECHO. Repeat part: every catalogue request (plus KEYS/SCAN MATCH with ill-formed and valid glob patterns) three times on one connection (X X PING X) against the bundled example store holding three elements per type, whole and 1-byte: one well-formed reply per request, PING answered at its position.",
+		Rule:  "request catalogue from the independent grammar: every registered command with its valid shapes (each option word at least once, list arities 1..3, lower-case name), one surplus-argument shape, every ill-formed shape of C10, unknown commands, handler errors, QUIT variants. Pipelines: every single request; all ordered pairs and triples over one representative per executor family + QUIT + unknown + argument error + handler error. Delivery: whole, EVERY 2-way split, 1-byte (singles, pairs; triples: whole, request-aligned, 1-byte; thorough: every 2-way split too, and all pipelines of four representatives whole, request-aligned and 1-byte). The reply/liveness invariant (#complete replies written == #complete requests delivered, in order, replies equal to the request's solo reply) is evaluated at every transport Read and at end of stream; a loop-iteration budget turns a spin into a verdict. Size ladder: the pipeline PING, ECHO <L bytes>, SET k <L bytes>, ECHO x for L = 2^k-1, 2^k, 2^k+1 (k=6..16, thorough 17) and 10^k-1..10^k+1 with frame-looking content: whole, every 2-way split within 8 bytes of each structural position (request boundaries, start and end of the large payload), strides 1/3/4096/32768. Configuration invariance: every catalogue request under {requirepass with AUTH first, tracer installed, connection over TLS, all three} must get the default configuration's reply and handler calls, and under requirepass without AUTH (tracer installed) exactly one reply and no handler call. Arity ladder: DEL/MGET/MSET/SADD/RPUSH/HMSET/ZADD with 255..4097 elements between PING and ECHO. Repeat part: every catalogue request (plus KEYS/SCAN MATCH with ill-formed and valid glob patterns) three times on one connection (X X PING X) against the bundled example store holding three elements per type, whole and 1-byte: one well-formed reply per request, PING answered at its position.",
 		Assumptions: []string{
 			"replies are compared with the reply the same request gets when sent alone (stateless recording double with content-derived tokens)",
 			"pipelines longer than 3 are not explored",
